@@ -105,3 +105,32 @@ pub proof fn lemma_empty_literal()
 pub uninterp spec fn spec_trim(s: Seq<char>) -> Seq<char>;
 pub assume_specification [str::trim] (s: &str) -> (r: &str)
     ensures r@ == spec_trim(s@);
+
+/// HashMap::keys() yields exactly the keys: vstd states coverage, distinctness and the count; membership of every yielded key follows (proved)
+pub proof fn lemma_keys_exact<K>(s: Seq<&K>, dom: Set<K>)
+    requires
+        s.no_duplicates(), s.len() == dom.len(),
+        forall|k: K| dom.contains(k) ==> exists|j: int| 0 <= j < s.len() && *(#[trigger] s[j]) == k,
+    ensures forall|j: int| 0 <= j < s.len() ==> dom.contains(*(#[trigger] s[j]))
+{
+    let t = s.map_values(|r: &K| *r);
+    assert(t.no_duplicates()) by {
+        assert forall|i: int, j: int| 0 <= i < t.len() && 0 <= j < t.len() && i != j implies t[i] != t[j] by {
+            assert(s[i] != s[j]);
+        }
+    }
+    t.unique_seq_to_set();
+    assert(dom.subset_of(t.to_set())) by {
+        assert forall|k: K| #[trigger] dom.contains(k) implies t.to_set().contains(k) by {
+            let j = choose|j: int| 0 <= j < s.len() && *(#[trigger] s[j]) == k;
+            assert(t[j] == k);
+            assert(t.contains(k));
+        }
+    }
+    vstd::set_lib::lemma_subset_equality(dom, t.to_set());
+    assert forall|j: int| 0 <= j < s.len() implies dom.contains(*(#[trigger] s[j])) by {
+        assert(t[j] == *s[j]);
+        assert(t.contains(t[j]));
+        assert(t.to_set().contains(t[j]));
+    }
+}
